@@ -5,3 +5,4 @@ pub mod cache;
 pub mod upstream;
 pub mod resolve;
 pub mod server;
+pub mod hosts;
